@@ -107,6 +107,14 @@ pub enum SOp {
     Env { func: u8, len: u32, off: u32 },
     /// `upgrade(module_ref)`: always interrupts; the chain answers as scripted.
     Upgrade { resp: Response },
+    /// `count` lookups of `key` in a loop (each yields a fresh entry handle); the result is the last handle.
+    LookupBurst {
+        #[serde(with = "hexser::bytes")]
+        key:   Vec<u8>,
+        count: u32,
+    },
+    /// get_parameter_section(0, scratch, len, 0) with a length beyond the 64-byte read buffers
+    ParamBig { len: u32 },
     /// `count` calls of log_event(len bytes) in a loop; the result is the sum of their return values.
     LogBurst { count: u32, len: u32 },
     /// `memory.grow(pages)`; the module declares room for two more pages, larger requests fail (and
@@ -164,6 +172,11 @@ pub struct VPlan {
     /// `v1::invoke_init` on an empty state. Functions that exist only for receive methods trap.
     #[serde(default)]
     pub init: bool,
+    /// Declare host function `.0` (index into the import list) with a perturbed type (`.1`: 0 = a
+    /// result added, 1 = its result dropped or changed, 2 = a parameter added, 3 = first parameter
+    /// of the other width). Such a module must be rejected when it is validated.
+    #[serde(default)]
+    pub bad_import: Option<(u8, u8)>,
 }
 
 // ---------------------------------------------------------------------------
@@ -207,6 +220,7 @@ const DATA_BASE: u32 = 0x1000;
 const RB_BASE: u32 = 0x6000; // 64 bytes per operation
 const RES_BASE: u32 = 0xC000; // 8 bytes per operation
 const MAX_OPS: usize = 96;
+const SCRATCH_BASE: u32 = 0x8000; // 8 KiB nobody reads
 const ZERO_BASE: u32 = 0xD000; // 12 KiB that no script touches: source of write_output data
 const MAX_RETURN_VALUE_P4: usize = 16384;
 
@@ -382,6 +396,33 @@ pub fn emit_module(plan: &VPlan) -> Vec<u8> {
             },
         })
         .collect();
+    let mut imports = imports;
+    if let Some((idx, kind)) = plan.bad_import {
+        let im = &mut imports[idx as usize % HOSTS.len()];
+        match kind % 4 {
+            0 => {
+                im.sig.result = Some(match im.sig.result {
+                    None => Ty::I32,
+                    Some(Ty::I32) => Ty::I64,
+                    Some(Ty::I64) => Ty::I32,
+                })
+            }
+            1 => {
+                im.sig.result = match im.sig.result {
+                    None => Some(Ty::I64),
+                    Some(_) => None,
+                }
+            }
+            2 => im.sig.params.push(Ty::I32),
+            _ => {
+                if im.sig.params.is_empty() {
+                    im.sig.params.push(Ty::I64)
+                } else {
+                    im.sig.params[0] = if im.sig.params[0] == Ty::I32 { Ty::I64 } else { Ty::I32 };
+                }
+            }
+        }
+    }
     let mut da = DataAlloc {
         next:  DATA_BASE,
         datas: Vec::new(),
@@ -400,6 +441,26 @@ pub fn emit_module(plan: &VPlan) -> Vec<u8> {
                     0,
                     res_addr,
                     Expr::Un(0xad, Box::new(Expr::Call(down, vec![i32c(*n), i32c(*m)]))),
+                ));
+                continue;
+            }
+            if let SOp::LookupBurst { key, count } = op {
+                // local 2 = loop counter; the handle of the last lookup is stored
+                let kp = da.put(key);
+                body.push(Stmt::Loop(2, (*count).max(1), vec![Stmt::Store(
+                    0x37,
+                    0,
+                    i32c(RES_BASE + 8 * i as u32),
+                    Expr::Host(0, vec![i32c(kp), i32c(key.len() as u32)]),
+                )]));
+                continue;
+            }
+            if let SOp::ParamBig { len } = op {
+                body.push(Stmt::Store(
+                    0x37,
+                    0,
+                    res_addr,
+                    Expr::Un(0xad, Box::new(Expr::Host(14, vec![i32c(0), i32c(SCRATCH_BASE), i32c((*len).min(8192)), i32c(0)]))),
                 ));
                 continue;
             }
@@ -462,7 +523,7 @@ pub fn emit_module(plan: &VPlan) -> Vec<u8> {
                     12 => (31, vec![i32c(rb), i32c((*len).min(64)), i32c(*off)]),
                     _ => (33, vec![i32c(rb)]),
                 },
-                SOp::DeepCall { .. } | SOp::MemGrow { .. } | SOp::LogBurst { .. } => unreachable!(),
+                SOp::DeepCall { .. } | SOp::MemGrow { .. } | SOp::LogBurst { .. } | SOp::LookupBurst { .. } | SOp::ParamBig { .. } => unreachable!(),
                 SOp::OutOfBounds { func, ptr, len } => match func % 10 {
                     0 => (0, vec![i32c(*ptr), i32c(*len)]),
                     1 => (1, vec![i32c(*ptr), i32c(*len)]),
@@ -1192,6 +1253,28 @@ fn model_run(plan: &VPlan, si: usize, st: &mut MState, ctx: &mut MCtx) -> MOutco
                 }
                 model_response(resp, ctx)
             }
+            SOp::LookupBurst { key, count } => {
+                let mut last = NONE64;
+                for _ in 0..(*count).max(1) {
+                    ctx.min_energy += c_lookup(key.len() as u64);
+                    last = match st.map.get(key) {
+                        Some((_, uid)) => {
+                            st.entries.push((key.clone(), *uid));
+                            ((st.gen as u64) << 32) | (st.entries.len() as u64 - 1)
+                        }
+                        None => NONE64,
+                    };
+                }
+                last
+            }
+            SOp::ParamBig { len } => {
+                let len = (*len).min(8192) as u64;
+                ctx.min_energy += c_copy_parameter(len);
+                match ctx.params.first() {
+                    Some(p) => len.min(p.len() as u64),
+                    None => NONE32,
+                }
+            }
             SOp::LogBurst { count, len } => {
                 if DATA_BASE as u64 + *len as u64 > MEM * ctx.pages as u64 {
                     return MOutcome::Trap;
@@ -1804,6 +1887,14 @@ fn g_script(rng: &mut Rng, focus: VFocus, nscripts: usize, pool: &mut Vec<Vec<u8
         let groups = [6u32, 6, w_iter, w_invoke, w_misc, w_oob];
         let op = match rng.weighted(&groups) {
             0 => match rng.below(6) {
+                0 if rng.chance(1, 40) => {
+                    // very many handles in one generation (the last one is the result)
+                    entries.push(i);
+                    SOp::LookupBurst {
+                        key:   g_key(rng, pool),
+                        count: *rng.pick(&[2u32, 255, 256, 65535, 65536, 65537, 70000]),
+                    }
+                }
                 0 | 1 => {
                     entries.push(i);
                     SOp::Lookup { key: g_key(rng, pool) }
@@ -1898,6 +1989,9 @@ fn g_script(rng: &mut Rng, focus: VFocus, nscripts: usize, pool: &mut Vec<Vec<u8
                     off:  *rng.pick(&[0u32, 0, 1, 39, 40, 41, u32::MAX]),
                 },
                 0 => SOp::ParamSize { i: rng.below(4) as u32 },
+                1 if rng.chance(1, 4) => SOp::ParamBig {
+                    len: *rng.pick(&[65u32, 1023, 1024, 1025, 1500, 2047, 2048, 4000]),
+                },
                 1 | 2 => SOp::ParamSection {
                     i:   rng.below(4) as u32,
                     len: *rng.pick(&[0u32, 1, 4, 64]),
@@ -1964,6 +2058,10 @@ fn g_script(rng: &mut Rng, focus: VFocus, nscripts: usize, pool: &mut Vec<Vec<u8
 
 pub fn generate(rng: &mut Rng, tier: Tier, focus: VFocus) -> VPlan {
     let mut p = generate_receive(rng, tier, focus);
+    if focus == VFocus::Host && rng.chance(1, 25) {
+        p.bad_import = Some((rng.below(HOSTS.len() as u64) as u8, rng.below(4) as u8));
+        return p;
+    }
     if (focus == VFocus::Host || focus == VFocus::Energy) && rng.chance(1, 6) {
         // initialisation of an instance: empty state, scripts[0] as the init method
         p.init = true;
@@ -2024,6 +2122,7 @@ fn generate_receive(rng: &mut Rng, _tier: Tier, focus: VFocus) -> VPlan {
         shrunk: false,
         tail_grow: if focus == VFocus::Energy && rng.chance(1, 4) { Some(rng.range(1, 2) as u32) } else { None },
         init: false,
+        bad_import: None,
     }
 }
 
@@ -2215,7 +2314,7 @@ fn viol(oracle: &str, sig: impl Into<String>, detail: String) -> Option<Violatio
 fn slot_in_focus(focus: VFocus, op: &SOp) -> bool {
     match focus {
         VFocus::Host | VFocus::Resume | VFocus::Energy => true,
-        VFocus::Handles => !matches!(op, SOp::ParamSize { .. } | SOp::ParamSection { .. } | SOp::LogEvent { .. } | SOp::WriteOutput { .. } | SOp::SelfBalance | SOp::OutOfBounds { .. } | SOp::Env { .. } | SOp::MemGrow { .. } | SOp::LogBurst { .. }),
+        VFocus::Handles => !matches!(op, SOp::ParamSize { .. } | SOp::ParamSection { .. } | SOp::LogEvent { .. } | SOp::WriteOutput { .. } | SOp::SelfBalance | SOp::OutOfBounds { .. } | SOp::Env { .. } | SOp::MemGrow { .. } | SOp::LogBurst { .. } | SOp::ParamBig { .. }),
     }
 }
 
@@ -2244,6 +2343,8 @@ fn op_name(op: &SOp) -> &'static str {
         SOp::Upgrade { .. } => "upgrade",
         SOp::MemGrow { .. } => "memory.grow",
         SOp::LogBurst { .. } => "log_event (burst)",
+        SOp::LookupBurst { .. } => "state_lookup_entry (burst)",
+        SOp::ParamBig { .. } => "get_parameter_section (large)",
         SOp::Env { func, .. } => match *func % ENV_FUNCS {
             13 => "get_init_origin",
             f => HOSTS[19 + f as usize].0,
@@ -2290,6 +2391,41 @@ fn dont_care_slots(plan: &VPlan, rv_model: &[u8]) -> Vec<bool> {
 }
 
 pub fn execute(plan: &VPlan, rec: &mut Recorder) -> Option<Violation> {
+    if let Some((idx, kind)) = plan.bad_import {
+        // A module that declares a host function with another type than the documented one must not
+        // pass validation (its calls would leave the interpreter's stack in disorder). Only the
+        // import's declaration is perturbed; no function of the module calls anything.
+        let mut p = plan.clone();
+        for s in p.scripts.iter_mut() {
+            s.ops.clear();
+        }
+        p.tail_grow = None;
+        let bytes = emit_module(&p);
+        rec.op();
+        rec.log_bytes(&bytes);
+        rec.probe("ill_typed_import_declared");
+        let r = utils::instantiate_with_metering::<ProcessedImports>(
+            ValidationConfig::V1,
+            CostConfigurationV1,
+            &ConcordiumAllowedImports {
+                support_upgrade: true,
+                enable_debug:    false,
+            },
+            &bytes,
+        );
+        if r.is_ok() && plan.focus == VFocus::Host {
+            return viol(
+                "outcome",
+                "host/ill-typed-import-accepted",
+                format!(
+                    "a module that imports {} with a type other than the documented one (perturbation {}) passes validation",
+                    HOSTS[idx as usize % HOSTS.len()].0,
+                    kind % 4
+                ),
+            );
+        }
+        return None;
+    }
     let bytes = emit_module(plan);
     let inst = utils::instantiate_with_metering::<ProcessedImports>(
         ValidationConfig::V1,
